@@ -101,7 +101,8 @@ def gen_history(rng):
         else:
             evs.append(('advance', rng.choice(['before', 'past', 'past', 'small', 'at'])))
     evs.append(('advance', 'past'))
-    return {'nodes': nn, 'events': evs, 'last_used': rng.choice([0, 0, 0, 3, 3, 254, 65535, 2**32 - 2, 2**32 - 1, 2**32, 2**40 + 1]), 'publish_in_callback': rng.random() < 0.25}
+    return {'nodes': nn, 'events': evs, 'last_used': rng.choice([0, 0, 0, 3, 3, 254, 65535, 2**32 - 2, 2**32 - 1, 2**32, 2**40 + 1]), 'publish_in_callback': rng.random() < 0.25,
+            'pre_start_pubs': rng.choice([0, 0, 0, 1, 2])}
 
 
 def gen_vector_spec(rng, nodes):
@@ -187,14 +188,24 @@ def execute(ctx, hist, rng):
                 cb_pubs.append(i.new_data())       # non-blocking: an application may publish in reaction to missing data
         inst = SvsInst(BASE_PREFIX, SELF, on_missing, DigestSha256Signer(for_interest=True),
                        pass_validator, sync_interval=30, suppression_interval=0.2, last_used_seq_num=hist['last_used'])
+        # publishing before start() is supported (new_data only skips waking the timer): the sequence number continues from
+        # the restored last_used_seq_num
+        pre = hist.get('pre_start_pubs', 0)
+        pre_seq = hist['last_used']
+        for _ in range(pre):
+            got_seq = inst.new_data()
+            pre_seq += 1
+            ctx.event('publication-before-start')
+            if got_seq != pre_seq:
+                R['viol'].append(('publish-seq:before-start', f'new_data() before start() returned {got_seq}, expected {pre_seq} (last used {hist["last_used"]})', {'history': hist}))
         inst.start(the_app)
         await asyncio.sleep(0)
 
         def due_ms():
             return (inst.next_sync_timing - vtime.BASE - vtime.EPS) * 1000.0
 
-        model_local = {nid(SELF): hist['last_used']}
-        self_seq = hist['last_used']
+        model_local = {nid(SELF): pre_seq}
+        self_seq = pre_seq
         heard = None           # list of accepted vectors heard in the current suppression period
         sent_idx = len(face.sent)
 
@@ -494,7 +505,7 @@ def run(ctx):
         svs_sync.secrets.randbits = orig
     for k in ('suppression-entered', 'vector-heard-during-suppression', 'suppression-expiry-needed', 'suppression-expiry-not-needed',
               'periodic-expiry', 'publication', 'vector-newer', 'vector-self-too-much', 'vector-no-seq', 'outdated-vector-answered',
-              'publication-next-to-reception'):
+              'publication-next-to-reception', 'publication-before-start'):
         ctx.need_event(k)
     ctx.assumptions = ['when suppression is entered is read from the instance (not part of the statement)',
                        'a vector containing a malformed entry may be merged without that entry or ignored entirely',
